@@ -444,6 +444,17 @@ class IdRules:
                 if e['op'] == 'wait':
                     sink.bad('C14.PROBE', 'claim loop blocks on a single reservation flag', '%s:%s' % (f['file'], e['line']),
                              'atomic wait on flag %s: the thread is woken only by the holder of that slot, although another ID may have been freed' % self.norm(e['obj'][2]))
+        # neither the claim loop nor the exit path may block on a lock: a claimer that spins while holding it keeps every
+        # exiting thread from giving its ID back
+        for g in (f, self.dtor):
+            for p in self.paths[g['key']]['paths']:
+                for e in p.events:
+                    rec_c = str(e.get('record') or '')
+                    blocking = (e['kind'] == 'construct' and rec_c.startswith(('std::lock_guard<', 'std::unique_lock<', 'std::scoped_lock<', 'std::shared_lock<'))) or \
+                        (e['kind'] == 'call' and e.get('name') in ('lock', 'lock_shared', 'wait', 'acquire') and ('mutex' in rec_c or 'condition_variable' in rec_c or 'semaphore' in rec_c))
+                    if blocking:
+                        sink.bad('C14.PROBE', '%s blocks on %s' % (sname(g['name']), rec_c.split('<')[0] or e.get('name')), '%s:%s' % (g['file'], e.get('line')),
+                                 'claiming and releasing an ID must be lock-free: a thread that spins for a free ID while it holds the lock stops every exiting thread in its destructor, so no ID is ever freed')
         # loops re-read the flag (on the analysed paths: between two visits of a loop head an atomic read of a flag occurs)
         reread, iters = True, 0
         for p in res['paths']:
